@@ -106,7 +106,7 @@ def plan(tier, seed):
 
     for name, mod in sorted(spec_writers.all_writers().items()):
         for klass in mod.CLASSES:
-            for rep in range(1 if tier == "quick" else 6):
+            for rep in range(1 if tier == "quick" else 20):
                 cases.append({"kind": "guaranteed_gen", "writer": name, "klass": klass, "rep": rep, "seed": seed})
     # the repository's own test-suite as a workload under monitor M9 (vf/mon/pytest_plugin.py)
     cases.append({"kind": "suite", "tier": tier, "timeout": 3300})
